@@ -494,6 +494,16 @@ def check_argmin(ctx, R, modules=(RG,)):
                         else:
                             n_good += 1
                             ctx.ok(R, c, f"{q}: argmin over per-row norms (axis given)")
+                    elif dotted(c.func).endswith("argmin") and isinstance(a, ast.BinOp) and isinstance(a.op, (ast.MatMult, ast.Sub, ast.Mult)) or (isinstance(a, ast.Call) and dotted(a.func) in ("numpy.dot", "np.dot", "numpy.inner")):
+                        # nearest = smallest DISTANCE: a signed offset (projection on a direction, a difference) is smallest
+                        # for the hit farthest on the negative side
+                        ctx.finding(
+                            R,
+                            c,
+                            f"argmin of signed quantity {norm_text(a, 60)}",
+                            f"{q}: `{unparse(c)}` with `{unparse(c.args[0])} = {norm_text(a, 80)}`: the quantity is signed (an offset along a direction, not a distance), so argmin picks the hit "
+                            f"farthest on the negative side instead of the nearest one",
+                        )
                     else:
                         n_good += 1
                         ctx.ok(R, c, f"{q}: argmin over `{norm_text(a, 50)}` (not a whole-array norm)")
